@@ -21,6 +21,7 @@
 package iterator
 
 import (
+	"fmt"
 	"reflect"
 	"sort"
 
@@ -41,6 +42,23 @@ type Context struct {
 	// Per-root-iterator data
 	EventReceiver        events.DataEventReceiver
 	TryAddLocalReference TryAddLocalReference
+	depth                uint64
+}
+
+// enterNested / leaveNested bracket the iteration of anything that can take
+// part in a reference cycle (pointers, slices, maps). Without recursion support
+// cyclic data would otherwise recurse until the goroutine stack overflows,
+// which kills the process; nesting deeper than the configured maximum
+// container depth could not be read back anyway.
+func (_this *Context) enterNested() {
+	_this.depth++
+	if _this.depth > _this.Configuration.Rules.MaxContainerDepth {
+		panic(fmt.Errorf("exceeded max container depth of %d (cyclic data needs Iterator.RecursionSupport)", _this.Configuration.Rules.MaxContainerDepth))
+	}
+}
+
+func (_this *Context) leaveNested() {
+	_this.depth--
 }
 
 func (_this *Context) NotifyNil() {
